@@ -112,3 +112,18 @@ def summarize(steps):
         else:
             out.append("%s(%s)" % (s["call"], s["obj"]))
     return out
+
+
+def shape(model, steps):
+    """the Lean shape predicates (ErgoModel.Program.writerOK / busyOK / readerOK, with the theorems of Lemmas/ProgramThm.lean about what they
+    guarantee) applied to an observed program; returns {"writer": bool, "busy": bool, "reader": bool, "abstract": [...]}"""
+    return model.ask({"op": "program", "program": summarize_all(steps)})
+
+
+def summarize_all(steps):
+    """like summarize, but without merging repeated reads (the predicate counts calls)"""
+    out = []
+    for s in steps:
+        one = summarize([s])
+        out += one if one else []
+    return out
